@@ -1096,6 +1096,7 @@ struct sLinkLayerPrimaryBalanced
     uint64_t lastSendTime;
     uint64_t originalSendTime;
     bool sendLinkLayerTestFunction;
+    bool testFunctionSent; /* the frame waiting for its ACK is the test function, not user data */
     bool nextFcb;
 
     int otherStationAddress;
@@ -1123,6 +1124,7 @@ LinkLayerPrimaryBalanced_init(LinkLayerPrimaryBalanced self, LinkLayer linkLayer
 
     self->waitingForResponse = false;
     self->sendLinkLayerTestFunction = false;
+    self->testFunctionSent = false;
     self->nextFcb = true;
 
     self->linkLayer = linkLayer;
@@ -1210,7 +1212,8 @@ LinkLayerPrimaryBalanced_handleMessage(LinkLayerPrimaryBalanced self, uint8_t fc
         }
         else if (primaryState == PLL_EXECUTE_SERVICE_SEND_CONFIRM)
         {
-            if (self->sendLinkLayerTestFunction)
+            /* a test function requested while user data waits for its ACK is still to be sent */
+            if (self->testFunctionSent)
                 self->sendLinkLayerTestFunction = false;
 
             newState = PLL_LINK_LAYERS_AVAILABLE;
@@ -1415,6 +1418,7 @@ LinkLayerPrimaryBalanced_runStateMachine(LinkLayerPrimaryBalanced self)
             SendFixedFrame(self->linkLayer, LL_FC_02_TEST_FUNCTION_FOR_LINK, self->otherStationAddress, true,
                            self->linkLayer->dir, self->nextFcb, true);
 
+            self->testFunctionSent = true;
             self->nextFcb = !(self->nextFcb);
             self->lastSendTime = currentTime;
             self->originalSendTime = self->lastSendTime;
@@ -1434,6 +1438,7 @@ LinkLayerPrimaryBalanced_runStateMachine(LinkLayerPrimaryBalanced self)
                 SendVariableLengthFrame(self->linkLayer, LL_FC_03_USER_DATA_CONFIRMED, self->otherStationAddress, true,
                                         self->linkLayer->dir, self->nextFcb, true, asdu);
 
+                self->testFunctionSent = false;
                 self->nextFcb = !(self->nextFcb);
                 self->lastSendTime = currentTime;
                 self->originalSendTime = self->lastSendTime;
@@ -1466,7 +1471,7 @@ LinkLayerPrimaryBalanced_runStateMachine(LinkLayerPrimaryBalanced self)
             {
                 DEBUG_PRINT("TIMEOUT: ASDU not confirmed\n");
 
-                if (self->sendLinkLayerTestFunction)
+                if (self->testFunctionSent)
                 {
                     DEBUG_PRINT("PLL - repeat send test function\n");
 
@@ -1826,10 +1831,8 @@ LinkLayerSlaveConnection_HandleMessage(LinkLayerSlaveConnection self, uint8_t fc
         }
         else if (primaryState == PLL_EXECUTE_SERVICE_SEND_CONFIRM)
         {
-            if (self->sendLinkLayerTestFunction)
-                self->sendLinkLayerTestFunction = false;
-            else
-                self->hasMessageToSend = false;
+            /* only user data is sent in this state (the test function waits in SERVICE_REQUEST_RESPOND) */
+            self->hasMessageToSend = false;
 
             llsc_setState(self, LL_STATE_AVAILABLE);
 
@@ -1838,6 +1841,9 @@ LinkLayerSlaveConnection_HandleMessage(LinkLayerSlaveConnection self, uint8_t fc
         else if (primaryState == PLL_EXECUTE_SERVICE_REQUEST_RESPOND)
         {
             /* single char ACK is interpreted as RESP NO DATA */
+
+            if (self->lastRequestFc == LL_FC_02_TEST_FUNCTION_FOR_LINK)
+                self->sendLinkLayerTestFunction = false;
 
             llsc_setState(self, LL_STATE_AVAILABLE);
 
@@ -1946,6 +1952,16 @@ LinkLayerSlaveConnection_HandleMessage(LinkLayerSlaveConnection self, uint8_t fc
 
         if (primaryState == PLL_EXECUTE_SERVICE_SEND_CONFIRM)
         {
+            newState = PLL_LINK_LAYERS_AVAILABLE;
+
+            llsc_setState(self, LL_STATE_AVAILABLE);
+        }
+        else if ((primaryState == PLL_EXECUTE_SERVICE_REQUEST_RESPOND) &&
+                 (self->lastRequestFc == LL_FC_02_TEST_FUNCTION_FOR_LINK))
+        {
+            /* the secondary station answered the test function: the link is alive */
+            self->sendLinkLayerTestFunction = false;
+
             newState = PLL_LINK_LAYERS_AVAILABLE;
 
             llsc_setState(self, LL_STATE_AVAILABLE);
@@ -2173,20 +2189,11 @@ LinkLayerSlaveConnection_runStateMachine(LinkLayerSlaveConnection self)
             {
                 DEBUG_PRINT("[SLAVE %i] TIMEOUT: ASDU not confirmed\n", self->address);
 
-                if (self->sendLinkLayerTestFunction)
-                {
-                    DEBUG_PRINT("[SLAVE %i] PLL - SEND FC 02 - RESET REMOTE LINK [REPEAT]\n", self->address);
+                /* repeat the frame that is waiting for its confirmation, unchanged */
+                DEBUG_PRINT("[SLAVE %i] PLL - SEND FC 03 - USER DATA CONFIRMED [REPEAT]\n", self->address);
 
-                    SendFixedFrame(self->primaryLink->linkLayer, LL_FC_02_TEST_FUNCTION_FOR_LINK, self->address, true,
-                                   false, !(self->nextFcb), true);
-                }
-                else
-                {
-                    DEBUG_PRINT("[SLAVE %i] PLL - SEND FC 03 - USER DATA CONFIRMED [REPEAT]\n", self->address);
-
-                    SendVariableLengthFrame(self->primaryLink->linkLayer, LL_FC_03_USER_DATA_CONFIRMED, self->address,
-                                            true, false, !(self->nextFcb), true, (Frame) & (self->nextMessage));
-                }
+                SendVariableLengthFrame(self->primaryLink->linkLayer, LL_FC_03_USER_DATA_CONFIRMED, self->address,
+                                        true, false, !(self->nextFcb), true, (Frame) & (self->nextMessage));
 
                 self->lastSendTime = currentTime;
             }
